@@ -39,6 +39,14 @@ def items_for(mode, tier):
         for nb in nbs:
             for mname in vol_methods:
                 items.append(mk_item(mname, bs, rate, nb, mode, tier))
+    # long boxes along one axis (more than 8 compression units = 32 lines), default and general layouts
+    long_items = [((4, 4, 256), 8, (10, 1, 1)), ((4, 4, 256), 8, (1, 10, 1)), ((8, 8, 64), 8, (5, 1, 2))] if tier == 'quick' else \
+        [((4, 4, 256), 8, (10, 1, 1)), ((4, 4, 256), 8, (1, 10, 1)), ((4, 4, 256), 8, (17, 2, 1)), ((8, 8, 64), 8, (5, 1, 2)),
+         ((4, 4, 8192), 0.25, (12, 1, 1)), ((4, 8, 128), 8, (9, 1, 2)), ((16, 16, 16), 8, (3, 3, 3))]
+    for bs, rate, nb in long_items:
+        for mname in (['read_subvolume'] if tier == 'quick' else ['read_subvolume', 'read_crossline', 'read_zslice', 'read_inline']):
+            if mode == 'in':
+                items.append(mk_item(mname, bs, rate, nb, mode, tier))
     # trace-based methods: small crossline block so that n_xl can be enumerated
     tr_layouts = [l for l in lay3 if small_dims_ok(l[0])]
     if tier == 'quick':
@@ -48,11 +56,15 @@ def items_for(mode, tier):
         for mname in ['get_trace', 'get_trace_window']:
             items.append(mk_item(mname, bs, rate, nb, mode, tier, dict(dimcap=2 if tier == 'quick' else 4)))
     dg_layouts = [((4, 4, 256), 8)] if tier == 'quick' else [((4, 4, 256), 8), ((8, 8, 64), 8), ((4, 8, 128), 8), ((4, 4, 1024), 2)]
+    # diagonals: square, tall (n_il > n_xl) and wide (n_xl > n_il) cubes, below and above one block per axis
+    dg_nbs = [(2, 2, 1), (2, 1, 1), (1, 2, 1)] if tier == 'quick' else [(1, 1, 1), (2, 2, 1), (2, 1, 1), (1, 2, 1), (3, 1, 1), (1, 3, 1)]
     for (bs, rate) in dg_layouts:
-        for mname in [n for n in readers.METHODS if 'diagonal' in n]:
-            if tier == 'quick' and mname.endswith('_crop'):
-                continue      # crop-only variants are covered by *_crop_win in the quick tier
-            items.append(mk_item(mname, bs, rate, (2, 2, 1), mode, tier, dict(dimcap=1 if tier == 'quick' else 4)))
+        for nb in dg_nbs:
+            for mname in [n for n in readers.METHODS if 'diagonal' in n]:
+                if tier == 'quick' and (mname.endswith('_crop') or (nb != (2, 2, 1) and not mname.endswith('_crop_win'))):
+                    continue      # quick: all variants on the square cube, the fully cropped variant on tall / wide cubes
+                cap = (1 if mode == 'in' else 2) if tier == 'quick' else 4
+                items.append(mk_item(mname, bs, rate, nb, mode, tier, dict(dimcap=cap)))
     for (bs, rate) in ([((4, 4, 256), 8), ((8, 8, 64), 8)] if tier != 'quick' else [((4, 4, 256), 8)]):
         for step in ((1, 1), (2, 3), (-1, 1)) if tier != 'quick' else ((2, 3),):
             for mname in ['read_inline_number', 'read_crossline_number']:
